@@ -16,7 +16,7 @@ fn main() {
         let mut ex: Box<dyn Executor> = match stream {
             "time" => Box::new(streams::time::TimeExec),
             "wire" => Box::new(streams::wire::WireExec),
-            "inst" | "bmca" | "port" | "fml" | "c07" | "master" | "view" | "tlv" | "timed" => Box::new(streams::inst::InstExec::new()),
+            "inst" | "bmca" | "port" | "fml" | "c07" | "master" | "swrap" | "view" | "tlv" | "timed" => Box::new(streams::inst::InstExec::new()),
             "cmp" => Box::new(streams::gen_bmca::CmpExec),
             "ovl" => Box::new(streams::ovl::OvlExec::default()),
             "net" => Box::new(streams::net::NetExec::default()),
@@ -63,6 +63,7 @@ fn main() {
         "wire" => streams::wire::generate(&mut out, &rng, thorough),
         "inst" => streams::gen_inst::generate(&mut out, &rng, thorough),
         "master" => streams::gen_inst::generate_master(&mut out, &rng, thorough),
+        "swrap" => streams::gen_inst::generate_slave_wrap(&mut out, &rng, thorough),
         "view" => streams::gen_inst::generate_view(&mut out, &rng, thorough),
         "tlv" => streams::gen_inst::generate_tlv(&mut out, &rng, thorough),
         "timed" => streams::gen_inst::generate_timed(&mut out, &rng, thorough),
